@@ -28,6 +28,8 @@ def run_check(prop, repo, tier="quick"):
     bdir = os.path.join(SCRATCH, "vst-build-" + os.path.basename(repo))
     env["VERIF_BUILD"] = bdir
     env["VERIF_REPO"] = repo
+    env["VERIF_EVIDENCE_DIR"] = os.path.join(bdir, "evidence")     # never touch the real evidence / replays
+    env["VERIF_REPLAY_DIR"] = os.path.join(bdir, "replays")
     r = subprocess.run([os.path.join(ROOT, "bin", "vcheck"), prop, "--tier", tier, "--repo", repo], env=env, stdout=subprocess.PIPE, stderr=subprocess.STDOUT, text=True)
     shutil.rmtree(bdir, ignore_errors=True)
     return r.returncode, r.stdout
